@@ -103,7 +103,7 @@ def check_text(stats, text):
         raise Discard('outside lexer domain (non-ASCII letters/digits/spaces outside literals)')
     got = hidc_tokens(text)
     stats.evaluated()
-    classify(stats, text, got)
+    classify(stats, text, want)      # classified by the reference tokens: hidc's spans are what is under test
     if isinstance(want, tuple) or isinstance(got, tuple):
         stats.cls('rejected_by_reference' if isinstance(want, tuple) else 'accepted_by_reference')
         if isinstance(want, tuple) != isinstance(got, tuple):
@@ -120,6 +120,8 @@ def check_text(stats, text):
     # every span re-lexes to the same single token
     lines = text.split('\n')
     for kind, value, sp in got:
+        if not (0 <= sp[0] < len(lines) and sp[0] == sp[2] and 0 <= sp[1] <= sp[3] <= len(lines[sp[0]])):
+            return ('span', 'text %r: span %r of token (%s, %r) lies outside the text' % (text, sp, kind, value))
         piece = lines[sp[0]][sp[1]:sp[3]]
         again = hidc_tokens(piece)
         if isinstance(again, tuple) or len(again) != 1 or again[0][:2] != (kind, value):
@@ -246,8 +248,11 @@ def check_layout(stats, case, seq1, seq2):
     stats.cls('layout_pairs')
     ta = hidc_tokens(a)
     tb = hidc_tokens(b)
-    classify(stats, a, ta)
-    classify(stats, b, tb)
+    for text_ in (a, b):
+        try:
+            classify(stats, text_, ref_tokens(text_))
+        except R.OutOfDomain:
+            pass
     if isinstance(ta, tuple) or isinstance(tb, tuple):
         return ('layout_lex', 'a layout of a valid program fails to lex: %r / %r\n%s\n----\n%s' % (ta if isinstance(ta, tuple) else 'ok', tb if isinstance(tb, tuple) else 'ok', a, b))
     if [t[:2] for t in ta] != [t[:2] for t in tb]:
